@@ -108,9 +108,9 @@ def run_cli(h, src, allow_text, drop_unsupported):
 
 def cases(tier, seed):
     cs = []
-    fam = pool.subset(pool.family_templates(tier), tier, seed + 2, every=6)
+    fam = pool.subset(pool.family_templates(tier), tier, seed + 2, every=6, thorough_every=2)
     for k in fam:
-        nds = [3] if tier == "quick" else [0, 3, 6]
+        nds = [3] if tier == "quick" else [0, 3]
         if k.startswith("special:"):
             nds = [0, 3, 6] if tier != "quick" else [0, 3]
         for nd in nds:
@@ -174,7 +174,7 @@ def describe(tier):
             "path; numeric clauses are validity queries (kept-group opacity strictly inside (0,1); every path-data number is "
             "round_n(.) of something by term shape or a literal with <= n decimals)."
         ),
-        "bounds": {"templates": "special + unsupported templates x options; a seed-rotated sixth of the C02-C06 families (quick) / all (thorough)", "ndigits": "0,3 (6 thorough)"},
+        "bounds": {"templates": "special + unsupported templates x options; a seed-rotated sixth (quick) / half (thorough) of the C02-C06 families, without the heavy C06 matrix templates and C02:matrix_chain", "ndigits": "3 (specials also 0; thorough 0,3 and 6 for specials)"},
         "outside": PIPE_OUTSIDE + ["absl flag parsing of the CLI", "that Skia only emits M/L/Q/C/Z verbs (contract)"],
         "stubs": common.mods().stubs + FP.CONTRACT,
         "assumptions": FP.CONTRACT + ["floats as reals", "round contract"],
